@@ -869,7 +869,8 @@ class Representation:
         else:
             product_rep = Representation()
             for gen in self.asym_gens():
-                tens = np.tensordot(self[gen], rep[gen], axes=0)
+                tens = np.tensordot(self.generators[gen],
+                                    rep.generators[gen], axes=0)
                 elt = np.concatenate(np.concatenate(tens, axis=1), axis=1)
                 product_rep[gen] = np.array(elt)
             return product_rep
